@@ -90,7 +90,36 @@ static void vf_abort(void) { n_abort++; }
 #define strdup vf_strdup
 #define strndup vf_strndup
 #define abort vf_abort
+#ifdef __CPROVER__
+/* snprintf("%s/%s") as used by cfg_make_fullpath() */
+static int v_snprintf(char *buf, size_t len, const char *fmt, const char *a, const char *b)
+{
+	size_t la = strlen(a), lb = strlen(b), i, o = 0;
+
+	(void)fmt;
+	for (i = 0; i < la; i++, o++)
+		if (o + 1 < len)
+			buf[o] = a[i];
+	if (o + 1 < len)
+		buf[o] = '/';
+	o++;
+	for (i = 0; i < lb; i++, o++)
+		if (o + 1 < len)
+			buf[o] = b[i];
+	if (len > 0)
+		buf[o < len ? o : len - 1] = 0;
+	return (int)(la + 1 + lb);
+}
+#define snprintf v_snprintf
+#endif
 #define getpwnam v_getpwnam
+#define fmemopen v_fmemopen
+#define fclose v_fclose
+#define stat(p, s) v_stat(p, s)
+static FILE *v_fmemopen(void *b, size_t n, const char *m);
+static int v_fclose(FILE *fp);
+struct stat;
+static int v_stat(const char *p, struct stat *st);
 #define getpwuid v_getpwuid
 #define geteuid v_geteuid
 static uid_t v_geteuid(void) { return 0; }
@@ -104,6 +133,9 @@ static struct passwd *v_getpwuid(uid_t uid);
 #undef strdup
 #undef strndup
 #undef abort
+#undef fmemopen
+#undef fclose
+#undef stat
 #define VM_NO_STRNDUP
 #include "libc_models.h"
 #include "build.h"
@@ -127,6 +159,58 @@ static void *vf_reallocarray(void *p, size_t nmemb, size_t size)
 		q[i] = ((cfg_opt_t *)p)[i];
 	free(p);
 	return q;
+}
+
+static FILE vf_file;
+static int n_fopen_like, n_fclose_like;
+static FILE *v_fmemopen(void *b, size_t n, const char *m)
+{
+	(void)b;
+	(void)n;
+	(void)m;
+	n_fopen_like++;
+	return &vf_file;
+}
+static int v_fclose(FILE *fp)
+{
+	(void)fp;
+	n_fclose_like++;
+	return 0;
+}
+static int v_stat(const char *p, struct stat *st)
+{
+	(void)p;
+	(void)st;
+	return -1; /* nothing exists: the search visits every directory */
+}
+int cfg_yylex(cfg_t *cfg)
+{
+	(void)cfg;
+	return -1; /* empty input */
+}
+void cfg_yylex_destroy(void) { }
+int cfg_lexer_include(cfg_t *cfg, const char *f)
+{
+	(void)cfg;
+	(void)f;
+	return 0;
+}
+static int n_scan_begin, n_scan_end;
+void cfg_scan_fp_begin(FILE *fp)
+{
+	(void)fp;
+	n_scan_begin++;
+}
+void cfg_scan_fp_end(void) { n_scan_end++; }
+static int cf_called;
+static int cf_func(cfg_t *cfg, cfg_opt_t *opt, int argc, const char **argv)
+{
+	(void)cfg;
+	(void)opt;
+	(void)argc;
+	(void)argv;
+	cf_called++;
+	return 0;
 }
 
 static struct passwd pw_entry;
@@ -173,6 +257,11 @@ static struct passwd *v_getpwuid(uid_t uid)
 #define M_INIT 11
 #define M_ADDTSEC 12
 #define M_SIBLINGS 13
+#define M_PARSEBUF 14
+#define M_CALLFUNC 15
+#define M_SEARCHPATH 16
+#define M_GETOPT_PATH 17
+#define M_SETNINT_LIST 18
 
 #ifndef NV
 #define NV 1
@@ -520,6 +609,114 @@ int main(void)
 			}
 			V_WITNESS("success path");
 		}
+	}
+#elif MODE == M_PARSEBUF
+	{
+		char *oldname;
+		int rc;
+
+		init_opt(O, "o", CFGT_INT, CFGF_NONE);
+		init_cfg(&root, "root", ropts, CFGF_NONE);
+		oldname = root.filename;
+		arm();
+		rc = cfg_parse_buf(&root, "x");
+		if (rc != CFG_SUCCESS) {
+			V_ASSERT(vf_failed, "[C18] parsing an (empty) buffer only fails when an allocation failed");
+			V_ASSERT(rc == CFG_PARSE_ERROR || rc == CFG_FILE_ERROR, "[C18] a failed parse reports one of the documented error codes");
+			V_WITNESS("failure path");
+		} else {
+			V_WITNESS("success path");
+		}
+		V_ASSERT(root.filename != NULL && V_R_OK(root.filename, 1), "[C18] the context's file name is live after a (failed) parse call");
+		V_ASSERT(n_scan_begin == n_scan_end && n_fopen_like == n_fclose_like, "[C18] a (failed) parse call leaves no source pushed and no stream open");
+		(void)oldname;
+	}
+#elif MODE == M_CALLFUNC
+	{
+		cfg_opt_t fo = CFG_STR(NULL, NULL, 0);
+		cfg_value_t *c0;
+		char *s0;
+		int rc;
+
+		init_opt(O, "g", CFGT_FUNC, CFGF_NONE);
+		O->func = cf_func;
+		init_cfg(&root, "root", ropts, CFGF_NONE);
+		vf_fail_at = -1;
+		c0 = cfg_addval(&fo);
+		V_ASSUME(c0 != NULL);
+		s0 = c0->string = heap_str("A");
+		arm();
+		rc = call_function(&root, O, &fo);
+		if (rc != 0) {
+			V_ASSERT(vf_failed && cf_called == 0, "[C18] a call only fails before the callback when an allocation failed");
+			V_ASSERT(fo.nvalues == 1 && fo.values[0] == c0 && V_R_OK(c0, sizeof(*c0)) && V_R_OK(s0, 2), "[C18] after a failed call the collected arguments are still owned (and live) for the caller to release");
+			V_WITNESS("failure path");
+		} else {
+			V_ASSERT(cf_called == 1 && fo.nvalues == 0, "[C18] a successful call consumes the arguments");
+			V_WITNESS("success path");
+		}
+	}
+#elif MODE == M_SEARCHPATH
+	{
+		cfg_searchpath_t *p1 = malloc(sizeof(*p1)), *p2 = malloc(sizeof(*p2));
+		char *r;
+
+		V_ASSUME(p1 != NULL && p2 != NULL);
+		p1->dir = heap_str("a");
+		p1->next = p2;
+		p2->dir = heap_str("b");
+		p2->next = NULL;
+		arm();
+		r = cfg_searchpath(p1, "f");
+		V_ASSERT(r == NULL, "[C18] nothing is found when no candidate exists (or an allocation failed)");
+		V_ASSERT(V_R_OK(p1, sizeof(*p1)) && V_R_OK(p2, sizeof(*p2)) && V_R_OK(p1->dir, 2) && V_R_OK(p2->dir, 2) && p1->next == p2, "[C18] a (failed) search leaves the search path intact");
+		V_WITNESS("failure path");
+		V_WITNESS("success path");
+	}
+#elif MODE == M_GETOPT_PATH
+	{
+		cfg_opt_t *r;
+		cfg_t *sec;
+
+		init_opt(O, "s", CFGT_SEC, CFGF_DEFINIT);
+		O->subopts = sub;
+		init_cfg(&root, "root", ropts, CFGF_NONE);
+		alloc_values(O, 1);
+		sec = O->values[0]->section = mk_section2("s", NULL, CFGF_NONE);
+		arm();
+		r = cfg_getopt(&root, "s|a");
+		if (r == NULL) {
+			V_ASSERT(vf_failed, "[C18] a by-path look-up of an existing option only fails when an allocation failed");
+			V_WITNESS("failure path");
+		} else {
+			V_ASSERT(r == &sec->opts[0], "[C18] a by-path look-up finds the option");
+			V_WITNESS("success path");
+		}
+		V_ASSERT(O->values[0]->section == sec && V_R_OK(sec, sizeof(cfg_t)), "[C18] a (failed) look-up changes nothing");
+	}
+#elif MODE == M_SETNINT_LIST
+	{
+		int rc;
+		cfg_value_t *cells[2];
+
+		init_opt(O, "o", CFGT_INT, CFGF_LIST);
+		alloc_values(O, NV);
+		for (i = 0; i < NV; i++) {
+			O->values[i]->number = (long)i + 10;
+			cells[i] = O->values[i];
+		}
+		arm();
+		rc = cfg_opt_setnint(O, 99, NV);
+		if (rc != CFG_SUCCESS) {
+			V_ASSERT(vf_failed && O->nvalues == NV, "[C18] appending through the indexed setter only fails when an allocation failed, and then appends nothing");
+			V_WITNESS("failure path");
+		} else {
+			V_ASSERT(O->nvalues == NV + 1 && O->values[NV]->number == 99, "[C18] a successful append stores the value");
+			V_WITNESS("success path");
+		}
+		for (i = 0; i < NV; i++)
+			V_ASSERT(O->values[i] == cells[i] && O->values[i]->number == (long)i + 10, "[C18] existing elements survive a (failed) append");
+		assert_opt_live(O);
 	}
 #elif MODE == M_SIBLINGS
 	{
